@@ -752,6 +752,35 @@ def dispatch (rcode nAns nNs : Nat) (minimized : Bool) : Route :=
   else if nNs != 0 then .referral
   else .authority                                 -- "no answer, no authority": the clean empty NOERROR is a NODATA
 
+/-! ### how long a validated response may be cached — `dnsutil.CalculateCacheTTL` (cacheable types)
+
+Seconds.  A record bounds the entry by its TTL, an RRSIG also by the time left to its expiration
+(in EVERY section), an SOA of the authority section by its MINIMUM; floor 5 s, ceiling 24 h. -/
+
+inductive TTLItem
+  | rr (ttl : Nat)
+  | sig (ttl : Nat) (left : Int)
+  | soa (ttl : Nat) (minimum : Nat)
+deriving Repr
+
+def sigTTL (ttl : Nat) (left : Int) : Nat :=
+  if left ≤ 0 then 5 else if left.toNat < ttl then left.toNat else ttl
+
+/-- what one record contributes (an SOA's MINIMUM counts in the authority section only). -/
+def itemBound (inAuthority : Bool) : TTLItem → Nat
+  | .rr ttl => ttl
+  | .sig ttl left => min ttl (sigTTL ttl left)
+  | .soa ttl m => if inAuthority then min ttl m else ttl
+
+def sectionBound (inAuthority : Bool) (l : List TTLItem) (start : Nat) : Nat :=
+  l.foldl (fun acc it => min acc (itemBound inAuthority it)) start
+
+def cacheTTL (answer ns extra : List TTLItem) : Nat :=
+  if answer.isEmpty && ns.isEmpty && extra.isEmpty then 5
+  else
+    let m := sectionBound false extra (sectionBound true ns (sectionBound false answer 86400))
+    if m < 5 then 5 else m
+
 /-! ### errors toward the client — `DNSHandler.handle` + `dnsutil.SetRcodeWithEDE` -/
 
 /-- Extended DNS Error code carried by each validation error (`dnssec/errors.go`, `dnsutil.ErrorToEDE`). -/
